@@ -666,6 +666,8 @@ func cmdRun(args []string) error {
 	id := fs.String("id", "r1", "run id")
 	subEvery := fs.Bool("subcrop-every", false, "log sub.crop in every sub-step")
 	appendTo := fs.Bool("append", false, "append to the trace file (the driver wrote a header line)")
+	warmRoot := fs.String("warm-root", "", "working directory of a run that is executed first in the SAME session (no probes)")
+	warmArgs := fs.String("warm-args", "", "its batch line arguments, separated by '|'")
 	fs.Parse(args)
 	var w *core.NDWriter
 	var err error
@@ -683,9 +685,28 @@ func cmdRun(args []string) error {
 			t.skip[s] = true
 		}
 	}
+	session := hermes.NewHermesSession()
+	if *warmRoot != "" {
+		// an earlier run of the same session (another project that shares identifiers with the probed one): whatever the
+		// session carries from run to run must not reach the probed run
+		wres := make(chan *hermes.RunReturn, 1)
+		wlog := make(chan string, 1000)
+		wdone := make(chan struct{})
+		go func() {
+			for range wlog {
+			}
+			close(wdone)
+		}()
+		func() {
+			defer func() { recover() }()
+			session.Run(*warmRoot, strings.Split(*warmArgs, "|"), *id+"-warm", wres, wlog)
+			<-wres
+		}()
+		close(wlog)
+		<-wdone
+	}
 	hermes.VerifProbe = t.probe
 	hermes.VerifEvent = t.event
-	session := hermes.NewHermesSession()
 	resCh := make(chan *hermes.RunReturn, 1)
 	logCh := make(chan string, 1000)
 	done := make(chan struct{})
